@@ -14,7 +14,7 @@ from contracts.storemodel import (TS, FieldSetStub, GhostFile, IndexGroup, TrajR
                                   make_cache, make_ncfiles, make_store, register_file)
 from contracts.C09 import NAMES, ROWJ, OpenedStub, handle_clauses, setup_inputs
 from pyvc.source import Unsupported
-from pyvc.values import PyExc, to_z3
+from pyvc.values import Model, PyExc, to_z3
 from pyvc.verify import unit
 
 LEVEL = 'proof'
@@ -142,6 +142,170 @@ def add_first_associated(h):
     h.fail('invalid-addition-is-rejected', 'a trajectory without the field set of the associated file was accepted')
 
 
+class SpeciesFieldStub(Model):
+    """A field with a species dimension (what add() looks at: required, dimensions)."""
+
+    def __init__(self, dims):
+        self.dims = dims
+
+    def py_getattr(self, I, name):
+        if name == 'dimensions':
+            return self.dims
+        if name == 'required':
+            return False
+        raise Unsupported('FieldMetadata.' + name)
+
+
+class OneFieldSet(Model):
+    def __init__(self, name, field):
+        self.name, self.field = name, field
+
+    def py_getattr(self, I, name):
+        from pyvc.values import Builtin
+        if name == 'items':
+            return Builtin('items', lambda: [(self.name, self.field)])
+        raise Unsupported('FieldSet.' + name)
+
+
+@unit('C10', 'add.species-outside-the-file-of-its-field-set', FUNCS, replay='contracts.C10:replay_add_two_files')
+def add_species_two_files(h):
+    """A store over two files with their own species dimensions - the base file {CO2, H2O}, a file made later by
+    create_associated {CO2, H2O, NOx} - opened for appending.  A trajectory whose *base-file* field carries NOx cannot be
+    stored in the base file: it must be refused before anything changes (it does not matter that another file of the store
+    has a NOx slot); the same value in the other file's field is fine as far as this check goes."""
+    I = h.I
+    install_store_models(h, I)
+    S = I.lookup_fq('AEIC.types.species:Species')
+    sp = {m.name: m for m in S.members}
+    Dimension = I.lookup_fq('AEIC.storage.dimensions:Dimension')
+    Dimensions = I.lookup_fq('AEIC.storage.dimensions:Dimensions')
+    dm = {m.name: m for m in Dimension.members}
+    dims = I.call(Dimensions, [dm['TRAJECTORY'], dm['SPECIES']], {})
+    SV = I.lookup_fq('AEIC.types.species:SpeciesValues')
+    n = h.int('rows')
+    h.assume(n >= 1)
+    f0 = GhostFile('store.nc', n, lambda k: ROW(to_z3(k)))
+    f1 = GhostFile('extra.nc', n, lambda k: ROW(to_z3(k)))
+    ncf0 = make_ncfiles(h, I, [f0], None, fs_name='base')
+    ncf1 = make_ncfiles(h, I, [f1], None, fs_name='extra')
+    ncf0.attrs['species'] = [sp['CO2'], sp['H2O']]
+    ncf1.attrs['species'] = [sp['CO2'], sp['H2O'], sp['NOx']]
+    cache = make_cache(h, I, in_memory=False)
+    st = make_store(h, I, 'APPEND', ncf0, cache, next_index=n, indexable=False)
+    st.attrs['_nc_files'] = [ncf0, ncf1]
+    st.attrs['_nc'] = {'base': ncf0, 'extra': ncf1}
+    fields = {'base': OneFieldSet('e_base', SpeciesFieldStub(dims)), 'extra': OneFieldSet('e_extra', SpeciesFieldStub(dims))}
+    h.summary('AEIC.storage.field_sets:FieldSet.from_registry', lambda I_, fi, a, k: fields[a[-1]])
+    bad_in_base = h.choice(2) == 0
+    h.ctx.named['nox_in_the_base_file_field'] = z3.BoolVal(bad_in_base)
+    t = FieldedTraj(h.int('new_traj_id'), schema=7, fieldsets={'base', 'extra'})
+    t.extra['e_base'] = I.call(SV, [{sp['CO2']: h.real('b_co2'), **({sp['NOx']: h.real('b_nox')} if bad_in_base else {})}], {})
+    t.extra['e_extra'] = I.call(SV, [{sp['CO2']: h.real('x_co2'), sp['NOx']: h.real('x_nox')}], {})
+    written = []
+
+    def write_data(I_, fi, a, k):
+        # by contract of the value layer (C03): a species without a slot in the file of its field set is refused by the
+        # writer - but only when that variable is reached, i.e. after the store has counted the trajectory
+        written.append('row')
+        if bad_in_base:
+            I_.raise_('ValueError', 'species NOx is not in the species dimension of the NetCDF file')
+    h.summary(TS + '._write_data', write_data)
+    entries0 = list(cache.attrs['__entries__'])
+    try:
+        h.method(st, 'add', t)
+    except PyExc as e:
+        if not bad_in_base:
+            h.fail('valid-addition-is-accepted', repr(e.inst) + ' at ' + str(e.inst.where))
+            return
+        h.ensure('rejection-is-a-named-refusal', h.exc_is(e, 'ValueError'), note=repr(e.inst))
+        h.ensure('rejected-before-anything-is-written-or-counted',
+                 not written and cache.attrs['__entries__'] == entries0 and z3.is_true(z3.simplify(to_z3(h.getattr(st, '_next_index')) == n)),
+                 note=f'written: {written}; cache entries {len(cache.attrs["__entries__"])}; next index {h.getattr(st, "_next_index")}; {e.inst!r}')
+        return
+    if bad_in_base:
+        h.fail('invalid-addition-is-rejected', 'a species without a slot in the file of its own field set was accepted')
+
+
+def replay_add_two_files(payload):
+    """Native: base file with species {CO2, H2O}, a create_associated file with {CO2, H2O, NOx}, both opened for appending;
+    a trajectory whose base-file species field carries NOx must be refused and leave the store as it was."""
+    import os
+    import shutil
+    import tempfile
+    from AEIC.storage import Dimension, Dimensions, FieldMetadata, FieldSet
+    from AEIC.trajectories import TrajectoryStore
+    from AEIC.types import Species, SpeciesValues
+    from contracts.C07 import _mk
+    problems = []
+    for nm in ('c10_two_base', 'c10_two_extra'):
+        if not FieldSet.known(nm):
+            FieldSet(nm, **{nm + '_e': FieldMetadata(dimensions=Dimensions(Dimension.TRAJECTORY, Dimension.SPECIES), description='', units='')})
+    tmp = tempfile.mkdtemp(prefix='c10s-', dir=os.environ.get('VERIF_SCRATCH'))
+    try:
+        base, extra = os.path.join(tmp, 'base.nc'), os.path.join(tmp, 'extra.nc')
+
+        def traj(i, base_species):
+            t = _mk(i)
+            t.add_fields(FieldSet.from_registry('c10_two_base'))
+            t.c10_two_base_e = SpeciesValues({Species[s]: float(i + k) for k, s in enumerate(base_species)})
+            return t
+        TrajectoryStore.active_in_thread = None
+        with TrajectoryStore.create(base_file=base) as ts:
+            for i in range(2):
+                ts.add(traj(i, ['CO2', 'H2O']))
+
+        class Extra:
+            FIELD_SETS = [FieldSet.from_registry('c10_two_extra')]
+
+            def __init__(self):
+                self.c10_two_extra_e = SpeciesValues({Species.CO2: 1.0, Species.H2O: 2.0, Species.NOx: 3.0})
+
+        def mapper(t):
+            return Extra()
+        TrajectoryStore.active_in_thread = None
+        with TrajectoryStore.open(base_file=base) as ts:
+            ts.create_associated(extra, ['c10_two_extra'], mapper)
+        TrajectoryStore.active_in_thread = None
+        with TrajectoryStore.append(base_file=base, associated_files=[extra]) as ts:
+            bad = traj(7, ['CO2', 'NOx'])
+            bad.add_fields(FieldSet.from_registry('c10_two_extra'))
+            bad.c10_two_extra_e = SpeciesValues({Species.CO2: 1.0, Species.NOx: 3.0})
+            n0 = len(ts)
+            try:
+                ts.add(bad)
+                problems.append('a NOx value in a field of the base file (species CO2, H2O) was accepted')
+            except Exception as e:   # noqa
+                if not isinstance(e, ValueError):
+                    problems.append(f'refused with {type(e).__name__}: {e}')
+            if len(ts) != n0:
+                problems.append(f'after the rejection the store has {len(ts)} trajectories, it had {n0}')
+            good = traj(8, ['CO2', 'H2O'])
+            good.add_fields(FieldSet.from_registry('c10_two_extra'))
+            good.c10_two_extra_e = SpeciesValues({Species.CO2: 1.0, Species.NOx: 3.0})
+            try:
+                idx = ts.add(good)
+                if idx != n0:
+                    problems.append(f'the next valid addition got index {idx}, expected {n0}')
+            except Exception as e:   # noqa
+                problems.append(f'the next valid addition failed: {type(e).__name__}: {e}')
+        TrajectoryStore.active_in_thread = None
+        try:
+            with TrajectoryStore.open(base_file=base, associated_files=[extra]) as ts:
+                if len(ts) != 3:
+                    problems.append(f'reopened: {len(ts)} trajectories, expected the 3 successful additions')
+                for i in range(len(ts)):
+                    ts[i]
+        except Exception as e:   # noqa
+            problems.append(f'reopened store cannot be read: {type(e).__name__}: {e}')
+    except Exception as e:   # noqa
+        import traceback
+        problems.append('scenario failed: ' + traceback.format_exc()[-400:])
+    finally:
+        TrajectoryStore.active_in_thread = None
+        shutil.rmtree(tmp, ignore_errors=True)
+    return dict(reproduced=bool(problems), observed=problems[:5], required='rejected addition leaves the store exactly as it was')
+
+
 def run_merge(h, files, kwargs=None):
     I = h.I
     cls = h.cls(TS)
@@ -170,8 +334,11 @@ def merge_interrupted(h):
     step = 1 + h.choice(nsteps + 1)
     gos.fault_at = step
     h.ctx.named['fault_at_step'] = z3.IntVal(step)
-    # the interruption is a failing call (OSError) or the user's interrupt arriving during that call (KeyboardInterrupt)
-    gos.fault_kind = ['OSError', 'KeyboardInterrupt'][h.choice(2)]
+    # the interruption is a failing call (OSError; RuntimeError is what netCDF4 raises for an HDF5-level failure such as a full
+    # disk while the index is written; MemoryError while a large index is assembled), the user's interrupt arriving during that
+    # call (KeyboardInterrupt) or the interpreter being told to exit from a signal handler (SystemExit): "interrupted at any
+    # step" does not depend on the kind
+    gos.fault_kind = ['OSError', 'KeyboardInterrupt', 'RuntimeError', 'MemoryError', 'SystemExit'][h.choice(5)]
     h.ctx.named['interrupted_by'] = z3.StringVal(gos.fault_kind)
     h.ctx.named['indexed'] = z3.BoolVal(indexed)
     I = h.I
@@ -559,6 +726,35 @@ def replay_merge(payload):
                 TrajectoryStore.merge(out, list(names))
             except Exception as e:   # noqa
                 problems.append(f'rename #{step} interrupted by {kind.__name__}: retry raised {type(e).__name__}: {e}')
+        # interruptions of other kinds inside the index writer and the metadata writer (an HDF5-level failure surfaces as
+        # RuntimeError, an exhausted memory as MemoryError, a signal handler's sys.exit as SystemExit)
+        real_index = TrajectoryStore._create_merged_store_index
+        for point in ('index', 'metadata'):
+            for kind in (RuntimeError, MemoryError, SystemExit):
+                d = os.path.join(tmp, f'case-{point}-{kind.__name__}')
+                names = make_inputs(d)
+                out = os.path.join(d, 'out.aeic-store')
+
+                def boom(*a, _k=kind, **k):
+                    raise _k('NetCDF: HDF error' if _k is RuntimeError else 'injected')
+                TrajectoryStore.active_in_thread = None
+                patch = mock.patch.object(TrajectoryStore, '_create_merged_store_index', staticmethod(boom)) if point == 'index' \
+                    else mock.patch('json.dump', boom)
+                with patch:
+                    try:
+                        TrajectoryStore.merge(out, list(names))
+                        continue
+                    except BaseException:   # noqa
+                        pass
+                if not all_readable(names, out):
+                    problems.append(f'{point} step interrupted by {kind.__name__}: some input is readable neither from its original file nor from a complete merged directory')
+                if os.path.exists(os.path.join(out, 'metadata.json')):
+                    problems.append(f'{point} step interrupted by {kind.__name__}: metadata.json announces a merged store')
+                TrajectoryStore.active_in_thread = None
+                try:
+                    TrajectoryStore.merge(out, list(names))
+                except Exception as e:   # noqa
+                    problems.append(f'{point} step interrupted by {kind.__name__}: retry raised {type(e).__name__}: {e}')
         # refused merge (mixed indexability), then corrected retry
         d = os.path.join(tmp, 'refused')
         names = make_inputs(d)
